@@ -41,7 +41,7 @@ def handleDecode (fields : List String) : Option String :=
       match Json.parse text with
       | none => some "err"
       | some j =>
-        match unmarshal codecEnv fuel t j (zero t) with
+        match unmarshal codecEnv decFuel t j (zero t) with
         | .err => some "err"
         | .unsupported => some "unsupported"
         | .ok v =>
